@@ -29,6 +29,9 @@ for d in sorted(Path('/verif/seeded').iterdir()):
             r = re.search(r'violated: (\S+) @', x)
             if r and r.group(1) not in rules:
                 rules.append(r.group(1))
+    for r_ in m.get('fires_now', []):
+        if r_ not in rules and not r_.startswith('ANALYSIS-ERROR'):
+            rules.append(r_)
     STRENGTHENED.update(json.loads(Path('/verif/seeded/strengthened.json').read_text()) if Path('/verif/seeded/strengthened.json').exists() else {})
     NOT_CAUGHT = json.loads(Path('/verif/seeded/not_caught.json').read_text()) if Path('/verif/seeded/not_caught.json').exists() else {}
     first = 'missed' if d.name in STRENGTHENED or d.name in NOT_CAUGHT else 'caught'
